@@ -259,10 +259,10 @@ CmakeDefine(line, conf, atOnly) ==
                 on == Defined(conf, name) /\ Truthy(Entry(conf, name))
             IN IF is01 THEN Res(TxtDefine \o name \o <<SP, IF on THEN 49 ELSE 48>> \o DefineEol(line), {})
                ELSE IF ~ on THEN Res(TxtCUndefOpen \o name \o TxtCClose \o DefineEol(line), {})
-               ELSE LET rest == CmakeInline(JoinSp(Tail(args)), conf, atOnly) IN
-                    IF rest.err THEN Error
-                    ELSE Res(TxtDefine \o name \o (IF rest.text = <<>> THEN <<>> ELSE <<SP>> \o rest.text) \o DefineEol(line),
-                             rest.missing)
+               \* "#define VAR" and the rest of the line (tokens separated by single blanks), placeholders replaced
+               ELSE LET rest == CmakeInline(TxtDefine \o name \o (IF Len(args) > 1 THEN <<SP>> \o JoinSp(Tail(args)) ELSE <<>>),
+                                            conf, atOnly) IN
+                    IF rest.err THEN Error ELSE Res(rest.text \o DefineEol(line), rest.missing)
 
 \* =============================================================================================
 \* whole templates
